@@ -309,9 +309,24 @@ def gen_run(seed: int, tier: str, sub: str) -> dict:
     # different threads, before and after other evaluations, is what the property is about (and
     # it keeps the number of fresh-process references per run small)
     call_pool = []
-    cfg['sweep'] = sub != 'captured' and r.random() < 0.45
-    cfg['stampede'] = sub != 'captured' and not cfg['sweep'] and r.random() < 0.3
-    if cfg['stampede']:
+    # run shapes are stratified over the run index (the low bits of the seed), and the functions in
+    # focus rotate through the workload's special cases, so that a batch of a hundred runs has
+    # covered every shape a dozen times and every special function a few times
+    idx = seed & 0xFFFF
+    slot = idx % 8
+    rot = idx // 8
+    m = meta.get('main')
+    shape = 'free'
+    if sub != 'captured':
+        shape = {0: 'sweep', 1: 'sweep', 2: 'stampede', 3: 'failure', 4: 'focus', 5: 'focus'}.get(slot, 'free')
+    cfg['shape'] = shape
+    cfg['sweep'] = shape == 'sweep'
+    cfg['stampede'] = shape == 'stampede'
+
+    def rotate(names: list, k: int, n: int) -> list:
+        return [names[(k + 7 * q) % len(names)] for q in range(n)] if names else []
+
+    if shape == 'stampede':
         # cold stampede: every thread's first operations are calls of the same one or two functions
         # through the shared default interpreter, finely interleaved -- the first-use paths (compile,
         # cache fill, lazily built tables) are where two callers meet
@@ -320,37 +335,47 @@ def gen_run(seed: int, tier: str, sub: str) -> dict:
         cfg['starve'] = r.choice([0.3, 0.7, 1.0])
         sns = 'lib' if r.random() < 0.2 else 'main'
         amb = [n for n in meta[sns].get('AMBIENT', []) if n in meta[sns]['SIG']]
-        names = r.sample(amb, r.randint(1, 2))
-        if sns == 'main' and r.random() < 0.5:
-            names = [r.choice(meta['main']['PINNED'])] + names[:1]
+        names = rotate(amb, rot, r.randint(1, 2))
+        if sns == 'main' and rot % 2 == 0:
+            names = rotate(m['PINNED'], rot // 2, 1) + names[:1]
         for name in names:
             args = catalogue(sns, name, meta[sns]['SIG'][name])[r.randrange(4)]
             for cname in r.sample(CTX_NAMES, 2):
                 call_pool.append((sns, name, args, cname))
-    elif cfg['sweep']:
+    elif shape == 'sweep':
         # context sweep: one or two functions that compute under the caller's context, the same
         # arguments, several contexts -- "the same function under another context" as history
-        sns = 'lib' if r.random() < 0.3 else 'main'
+        cfg['starve'] = r.choice([0.0, 0.3, 0.7, 1.0])
+        sns = 'lib' if rot % 4 == 3 else 'main'
         amb = [n for n in meta[sns].get('AMBIENT', []) if n in meta[sns]['SIG']]
-        names = r.sample(amb, r.randint(1, 2))
-        if sns == 'main' and r.random() < 0.35:
-            names = [r.choice(meta['main']['PINNED'])] + names[:1]
+        names = rotate(amb, rot, r.randint(1, 2))
+        if sns == 'main' and rot % 3 == 0:
+            names = rotate(m['PINNED'], rot // 3, 1) + names[:1]
         for name in names:
             args = catalogue(sns, name, meta[sns]['SIG'][name])[r.randrange(4)]
             for cname in r.sample(CTX_NAMES, r.randint(3, 5)):
                 call_pool.append((sns, name, args, cname))
-    elif sub != 'captured' and r.random() < 0.3:
+    elif shape == 'failure':
         # failure runs: programs that fail half-way (below a call, inside nested `with` blocks, in a
         # primitive) mixed with functions computing under the caller's or the default context
         cfg['failure_mix'] = True
-        m = meta['main']
-        for name in r.sample(m['FAILING'], r.randint(1, 2)):
-            for _ in range(2):
-                call_pool.append(('main', name, catalogue('main', name, m['SIG'][name])[r.randrange(CATALOGUE)], r.choice(CTX_NAMES)))
-        for name in r.sample(m['AMBIENT'], r.randint(1, 2)):
+        for name in rotate(m['FAILING'], rot, 2):
+            cat = catalogue('main', name, m['SIG'][name])
+            for q in range(3):
+                call_pool.append(('main', name, cat[(rot + q) % CATALOGUE], r.choice(CTX_NAMES)))
+        for name in rotate(m['AMBIENT'], rot, 2):
             args = catalogue('main', name, m['SIG'][name])[r.randrange(4)]
             call_pool.append(('main', name, args, None))
             call_pool.append(('main', name, args, r.choice(CTX_NAMES)))
+    elif shape == 'focus':
+        # two of the workload's special cases (aliasing arguments, pinned contexts, overflowing
+        # roundings, literals, closures, primitives, failing programs ...), several argument tuples each
+        for name in rotate(m['SPECIAL'], rot, 2):
+            cat = catalogue('main', name, m['SIG'][name])
+            for q in range(2):
+                call_pool.append(('main', name, cat[(rot + 3 * q) % CATALOGUE], r.choice(CTX_NAMES)))
+        ns, name = r.choice(pool)
+        call_pool.append((ns, name, catalogue(ns, name, meta[ns]['SIG'][name])[r.randrange(CATALOGUE)], None))
     else:
         for _ in range(r.randint(2, 6)):
             ns, name = r.choice(pool)
@@ -862,6 +887,7 @@ def collect_stats(st: core.Stats, run: dict, out: dict):
     st.count('steps', 'total', out['steps'])
     st.count('switches', 'total', out['switches'])
     st.count('threads', str(cfg['nthreads']))
+    st.count('shapes', cfg.get('shape', 'free'))
     if out['overrun']:
         st.count('undecided_runs', 'step-cap')
     st.add('interleavings', out['digest'])
@@ -1104,6 +1130,7 @@ def _main(tier: str, total: float, parts: list) -> int:
         'faults_fired': dict(c.get('faults', {})),
         'sub_batches': dict(c.get('runs', {})),
         'threads_per_run': dict(c.get('threads', {})),
+        'run_shapes': dict(c.get('shapes', {})),
         'interleavings_distinct': len(st.sets.get('interleavings', ())),
         'history_shapes_distinct': len(st.sets.get('history_shapes', ())),
         'handoff_location_pairs': len(st.sets.get('pairs', ())),
